@@ -7,7 +7,8 @@ From PTK Require Import Lib.Sx Lib.Py Lib.C19_Str Gen.C19_Palette
      Proofs.C19_PaletteFacts Proofs.C19_StrFacts Proofs.C19_StyleFacts Proofs.C19_SgrFacts
      Proofs.C19_StyleStringFacts Proofs.C19_ResolvedFacts
      Model.C19_FromDict Model.C19_Transform Model.C19_Cache
-     Proofs.C19_FromDictFacts Proofs.C19_TransformFacts Proofs.C19_CacheFacts.
+     Proofs.C19_FromDictFacts Proofs.C19_TransformFacts Proofs.C19_CacheFacts
+     Model.C19_Merged Proofs.C19_MergedFacts Model.C19_Memoized Proofs.C19_MemoizedFacts.
 Import ListNotations.
 Open Scope Z_scope.
 
@@ -285,3 +286,50 @@ Print Assumptions C19_caches_transparent.
 Theorem C19_caches_transparent_fresh : forall qs, run_queries EMPTY_W qs = map pure_answer qs.
 Proof. exact caches_transparent_fresh. Qed.
 Print Assumptions C19_caches_transparent_fresh.
+
+(* ---- merged styles with dynamic sheets ---------------------------------- *)
+(* Style objects with their invalidation hashes (Style: its identity; Dummy: 1;
+   DynamicStyle: the hash of the sheet it returns now; merged: the tuple of the
+   members' hashes) and _MergedStyle's one-entry cache of the combined Style,
+   keyed by that hash. *)
+
+(* The hash determines the rules: equal hashes, equal style_rules. *)
+Theorem C19_hash_determines_rules : forall pool t env1 env2,
+  inv_hash env1 t = inv_hash env2 t -> style_rules pool env1 t = style_rules pool env2 t.
+Proof. exact hash_determines_rules. Qed.
+Print Assumptions C19_hash_determines_rules.
+
+(* After ANY history of look-ups interleaved with switches of the dynamic
+   sheets (nested merges included), every look-up answers like a freshly built
+   object for the sheets as they are NOW ... *)
+Theorem C19_merged_cache_transparent : forall pool objs es env caches,
+  Forall2 (cache_inv pool) objs caches ->
+  run_events pool objs (env, caches) es = run_events_fresh pool objs env es.
+Proof. exact merged_cache_transparent. Qed.
+Print Assumptions C19_merged_cache_transparent.
+
+Theorem C19_merged_cache_transparent_fresh : forall pool objs es,
+  run_events pool objs ([], map (fun _ => None) objs) es = run_events_fresh pool objs [] es.
+Proof. exact merged_cache_transparent_fresh. Qed.
+Print Assumptions C19_merged_cache_transparent_fresh.
+
+(* ... and a fresh merge is one sheet with the current rules concatenated. *)
+Theorem C19_fresh_merged_is_concat : forall pool env l s,
+  fresh_lookup pool env (SMerged l) s
+  = style_get (flat_map (style_rules pool env) l) s DEFAULT_ATTRS.
+Proof. exact fresh_merged_is_concat. Qed.
+Print Assumptions C19_fresh_merged_is_concat.
+
+(* ---- memoized get_opposite_color ---------------------------------------- *)
+(* cache.memoized (SimpleCache, 1024 entries, first-in first-out eviction,
+   exceptions not stored) around get_opposite_color: after any history of
+   SwapLightAndDark transformations every answer is the unmemoised one. *)
+Theorem C19_memoized_swap_transparent : forall opp l c, opp_inv opp c ->
+  swap_history opp c l = map (transform opp (fun _ => None) TSwap) l.
+Proof. exact memoized_swap_transparent. Qed.
+Print Assumptions C19_memoized_swap_transparent.
+
+Theorem C19_memoized_swap_transparent_fresh : forall opp l,
+  swap_history opp [] l = map (transform opp (fun _ => None) TSwap) l.
+Proof. exact memoized_swap_transparent_fresh. Qed.
+Print Assumptions C19_memoized_swap_transparent_fresh.
